@@ -638,3 +638,41 @@ pub fn kv_list(m: &BTreeMap<String, String>, k: &str) -> Result<Vec<i64>, String
     }
     s.split(',').map(|t| t.parse::<i64>().map_err(|e| format!("{}: {}", k, e))).collect()
 }
+
+
+/// The exploring process was killed by a signal (a subject that corrupts memory can take the
+/// in-process explorer down with it): recorded like a hang - a violation whose replay re-runs the tier.
+pub fn report_crash(id: &str, tier: Tier, root: &std::path::Path, signal: i32, wall: f64) -> ! {
+    let dir = root.join("replays").join(id);
+    let _ = std::fs::remove_dir_all(&dir);
+    let _ = std::fs::create_dir_all(&dir);
+    let path = dir.join("crash.scene");
+    let body = format!("property={}\ntier={}\nsig=crash/explorer-killed-by-signal-{}\ncase=hang crash signal={}\n--- detail\nthe exploring process was killed by signal {} while running the subject in-process (memory corruption, stack exhaustion or an abort inside the subject); the cases are enumerated in a fixed order, so rerunning the tier reproduces it\n", id, tier.name(), signal, signal, signal);
+    let _ = std::fs::write(&path, body);
+    let ev = J::obj()
+        .put("property_id", J::s(id))
+        .put("tier", J::s(tier.name()))
+        .put("seed", J::Int(std::env::var("VERIF_SEED").ok().and_then(|s| s.parse().ok()).unwrap_or(0)))
+        .put("level", J::s("model_checking"))
+        .put(
+            "coverage",
+            J::obj()
+                .put("states", J::Int(1))
+                .put("transitions", J::Int(1))
+                .put("traces_validated_against_impl", J::Int(0))
+                .put("evaluations", J::Int(1))
+                .put("distinct_nontrivial", J::Int(1))
+                .put("rule", J::s("(the run was killed; see the crash record)"))
+                .put("samples", J::Arr(vec![J::s(format!("crash signal={}", signal))]))
+                .put("exhaustive", J::Bool(false))
+                .put("hang", J::s(format!("the exploring process was killed by signal {}; counts of the interrupted run are not available", signal))),
+        )
+        .put("wall_s", J::Num((wall * 1000.0).round() / 1000.0))
+        .put("violations", J::Int(1));
+    let evdir = root.join("evidence");
+    let _ = std::fs::create_dir_all(&evdir);
+    let _ = std::fs::write(evdir.join(format!("{}.json", id)), ev.render());
+    println!("VIOLATION property={} replay={}", id, path.display());
+    println!("FAIL {} tier={} crash: the exploring process was killed by signal {}", id, tier.name(), signal);
+    std::process::exit(1);
+}
